@@ -8,3 +8,400 @@ Open Scope Z_scope.
 (** bounded: the bound is the GENERATED table itself (70 rows today) *)
 Lemma valence_table_wf : table_wf valence_table = true.
 Proof. vm_compute. reflexivity. Qed.
+
+(** ------------------------------------------------------------ arithmetic of bonds_missing *)
+Lemma ascending_head_lt x l : ascending (x :: l) = true -> forall w, In w l -> x < w.
+Proof.
+  revert x. induction l as [|y l IH]; intros x H w Hin; [contradiction|].
+  cbn in H. apply andb_true_iff in H as [Hxy Hasc]. apply Z.ltb_lt in Hxy.
+  destruct Hin as [->|Hin]; [assumption|].
+  specialize (IH y Hasc w Hin). lia.
+Qed.
+Lemma ascending_tail x l : ascending (x :: l) = true -> ascending l = true.
+Proof. destruct l; cbn; [reflexivity|]. intros H. apply andb_true_iff in H. tauto. Qed.
+
+Lemma find_least val b2 : ascending val = true ->
+  forall v, find (fun v => b2 <=? 2 * v) val = Some v -> least_fitting val b2 v.
+Proof.
+  induction val as [|x l IH]; intros Hasc v Hf; [discriminate|].
+  cbn [find] in Hf. destruct (b2 <=? 2 * x) eqn:E.
+  - inversion Hf; subst. apply Z.leb_le in E. split; [now left|]. split; [assumption|].
+    intros w [->|Hin] _; [lia|]. pose proof (ascending_head_lt _ _ Hasc w Hin). lia.
+  - apply Z.leb_gt in E. destruct (IH (ascending_tail _ _ Hasc) v Hf) as (Hin & Hle & Hmin).
+    split; [now right|]. split; [assumption|].
+    intros w [->|Hw] Hb; [lia|auto].
+Qed.
+Lemma find_fits val b2 : fits val b2 -> exists v, find (fun v => b2 <=? 2 * v) val = Some v.
+Proof.
+  intros (w & Hin & Hle). induction val as [|x l IH]; [contradiction|].
+  cbn [find]. destruct (b2 <=? 2 * x) eqn:E; [eauto|].
+  destruct Hin as [->|Hin]; [apply Z.leb_gt in E; lia|auto].
+Qed.
+
+(** [bonds_missing_spec]: for a well-formed row and a bond sum that fits, the model's count of missing
+    bonds is int(v - b) for the LEAST fitting valence v; it is never negative; when the sum is
+    integral (even number of half units) the sum plus the count is exactly v. *)
+Theorem bonds_missing_spec val b2 : row_wf val = true -> fits val b2 ->
+  exists v, least_fitting val b2 v /\ missing_of val b2 = Z.quot (2 * v - b2) 2 /\
+            0 <= missing_of val b2 /\
+            (Z.even b2 = true -> b2 + 2 * missing_of val b2 = 2 * v) /\
+            (Z.even b2 = false -> b2 + 2 * missing_of val b2 = 2 * v - 1).
+Proof.
+  intros Hwf Hfit. unfold row_wf in Hwf. destruct val as [|x l] eqn:Ev; [discriminate|].
+  apply andb_true_iff in Hwf as [_ Hasc]. rewrite <- Ev in *.
+  destruct (find_fits val b2 Hfit) as [v Hf].
+  pose proof (find_least val b2 Hasc v Hf) as HL.
+  exists v. split; [assumption|]. unfold missing_of, pick_valence, trunc_half. rewrite Hf.
+  destruct HL as (_ & Hle & _).
+  assert (Hq : 0 <= 2 * v - b2) by lia.
+  split; [reflexivity|]. split; [apply Z.quot_pos; lia|].
+  split; intros Hev.
+  - apply Zeven_bool_iff in Hev. destruct (Zeven_ex _ Hev) as [m Hm].
+    replace (2 * v - b2) with ((v - m) * 2) by lia. rewrite Z.quot_mul by lia. lia.
+  - assert (Hodd : Z.odd b2 = true) by (rewrite <- Z.negb_even, Hev; reflexivity).
+    apply Zodd_bool_iff in Hodd. destruct (Zodd_ex _ Hodd) as [m Hm].
+    replace (2 * v - b2) with (1 + (v - m - 1) * 2) by lia.
+    rewrite Z.quot_add by lia. change (1 ÷ 2) with 0. lia.
+Qed.
+
+(** rows of the generated table are well formed *)
+Lemma table_row_wf e q val : table_row e q = Some (Some val) -> row_wf val = true.
+Proof.
+  unfold table_row. destruct (find _ valence_table) as [row|] eqn:E; [|discriminate].
+  intros H. inversion H as [H1]. apply find_some in E as [Hin _].
+  pose proof valence_table_wf as W. unfold table_wf in W. rewrite forallb_forall in W.
+  specialize (W row Hin). rewrite H1 in W. exact W.
+Qed.
+
+(** [valence_complete]: for EVERY element/charge row of the generated table and every bond sum within
+    the largest valence, the hydrogen count that fill_valence stores (max(bonds_missing, 0), hcount
+    having been reset to 0) is the least fitting valence minus the bonds, and bonds + hydrogens = that
+    valence (integral sums; half-integral sums — an odd number of aromatic bonds — come out half a
+    unit short, pysmiles' int()). *)
+Theorem valence_complete e q val b2 : table_row e q = Some (Some val) -> fits val b2 ->
+  let h := Z.max (missing_of val b2) 0 in
+  exists v, least_fitting val b2 v /\
+            (Z.even b2 = true -> 2 * h = 2 * v - b2 /\ b2 + 2 * h = 2 * v) /\
+            (Z.even b2 = false -> 2 * h = 2 * v - b2 - 1).
+Proof.
+  intros Hrow Hfit h. destruct (bonds_missing_spec val b2 (table_row_wf _ _ _ Hrow) Hfit)
+    as (v & HL & _ & Hpos & Hev & Hodd).
+  exists v. split; [assumption|]. subst h. rewrite Z.max_l by lia.
+  split; intros H; [specialize (Hev H)|specialize (Hodd H)]; lia.
+Qed.
+
+(** non-vacuity: neutral carbon with two single bonds and one aromatic pair *)
+Example valence_complete_nonvacuous :
+  table_row (S "C") 0 = Some (Some [4]) /\ fits [4] 4 /\ missing_of [4] 4 = 2 /\ missing_of [4] 6 = 1 /\
+  table_row (S "N") 0 = Some (Some [3; 5]) /\ missing_of [3; 5] 8 = 1 /\ missing_of [3; 5] 9 = 0.
+Proof. repeat split; try reflexivity. exists 4. split; [now left|lia]. Qed.
+
+(** ------------------------------------------------------------ fill_valence on one atom *)
+From CGV Require Import Hydro.GraphLemmas.
+
+(** with the constants rebuild_h_atoms hands to pysmiles (regenerated from the source:
+    respect_hcount=False, hcount reset to 0), one step of fill_valence stores
+    max(bonds_missing, 0) computed from the bonds alone *)
+Theorem fill_step_spec g k n b val :
+  gfind k g = Some n -> is_H (na n) = false ->
+  aget (S "hcount") (na n) = Some (VInt rebuild_reset_value) ->
+  sum_orders (nadj n) = Ok b -> valence_of (na n) = Ok val ->
+  fill_step rebuild_respect_hcount g k
+  = Ok (set_node_attr g k (S "hcount") (VInt (Z.max (missing_of val b) 0))).
+Proof.
+  intros Hk HH Hh Hb Hv. unfold fill_step, bonds_missing, node_attrs, bonds_half, hcount_half.
+  rewrite Hk. cbn [bind]. rewrite HH.
+  change rebuild_respect_hcount with false. rewrite andb_false_r. cbn [orb].
+  cbn [bind]. rewrite Hb. cbn [bind]. rewrite Hh.
+  change rebuild_reset_value with 0. cbn [half_of_num bind as_int]. rewrite Hv. cbn [bind].
+  rewrite Z.add_0_r. reflexivity.
+Qed.
+
+(** ------------------------------------------------------------ descriptors contribute no edges *)
+Lemma bonding_ne x : x <> S "bonding" -> forall v a, aget x (aset (S "bonding") v a) = aget x a.
+Proof. intros N v a. apply aget_aset_other. exact N. Qed.
+
+Lemma valence_of_bonding v a : valence_of (aset (S "bonding") v a) = valence_of a.
+Proof.
+  unfold valence_of, charge_of. rewrite !bonding_ne by (intro H; vm_compute in H; discriminate). reflexivity.
+Qed.
+Lemma hcount_half_bonding v a : hcount_half (aset (S "bonding") v a) = hcount_half a.
+Proof. unfold hcount_half. rewrite bonding_ne by (intro H; vm_compute in H; discriminate). reflexivity. Qed.
+
+(** [unused_descriptor_is_H]: whatever list of (unconsumed) bonding descriptors a node carries, the
+    number of bonds found missing on any atom is the same: descriptors are node attributes, they
+    contribute no edge, so the valence a surplus descriptor leaves open is filled with hydrogen
+    exactly as [valence_complete] says. *)
+Theorem unused_descriptor_is_H g j v k :
+  bonds_missing (set_node_attr g j (S "bonding") v) k = bonds_missing g k.
+Proof.
+  unfold bonds_missing, node_attrs, bonds_half. rewrite gfind_set_node_attr.
+  destruct (Z.eqb k j); [|reflexivity].
+  destruct (gfind k g) as [n|]; cbn [option_map bind na nadj]; [|reflexivity].
+  rewrite hcount_half_bonding, valence_of_bonding. reflexivity.
+Qed.
+Example unused_descriptor_nonvacuous :
+  let g := [{| nk := 0; na := [(S "element", VStr (S "C")); (S "charge", VInt 0); (S "bonding", VList [VStr (S "$1"); VStr (S "$1")])];
+               nadj := [(1, [(S "order", VInt 1)])] |};
+            {| nk := 1; na := [(S "element", VStr (S "C")); (S "charge", VInt 0)]; nadj := [(0, [(S "order", VInt 1)])] |}] in
+  bonds_missing g 0 = Ok 3 /\ bonds_missing (set_node_attr g 0 (S "bonding") (VList [])) 0 = Ok 3.
+Proof. split; vm_compute; reflexivity. Qed.
+
+(** ------------------------------------------------------------ attribute inheritance *)
+(** what the loop does to the hydrogen's attribute dict, given the anchor's dict *)
+Definition inherit_pure (an : attrs) (l : list pystr) (a : attrs) : attrs :=
+  fold_left (fun a attr => if ahas attr a then a else aset attr (getd attr an VNone) a) l a.
+
+Lemma gupdate_gupdate k f1 f2 g : (forall n, nk (f1 n) = nk n) ->
+  gupdate k f2 (gupdate k f1 g) = gupdate k (fun n => f2 (f1 n)) g.
+Proof.
+  intros H. induction g as [|n r IH]; cbn; [reflexivity|].
+  destruct (Z.eqb (nk n) k) eqn:E; cbn; [rewrite H, E; reflexivity|rewrite E, IH; reflexivity].
+Qed.
+Lemma gupdate_id k g : gupdate k (fun n => n) g = g.
+Proof. induction g as [|n r IH]; cbn; [reflexivity|]. destruct (Z.eqb (nk n) k); [reflexivity|now rewrite IH]. Qed.
+Lemma gupdate_ext k f1 f2 g : (forall n, f1 n = f2 n) -> gupdate k f1 g = gupdate k f2 g.
+Proof. intros H. induction g as [|n r IH]; cbn; [reflexivity|]. destruct (Z.eqb (nk n) k); [now rewrite H|now rewrite IH]. Qed.
+
+Definition set_attrs (A : attrs) (n : nrec) : nrec := {| nk := nk n; na := A; nadj := nadj n |}.
+Lemma gupdate_self k g n : gfind k g = Some n -> gupdate k (set_attrs (na n)) g = g.
+Proof.
+  induction g as [|m r IH]; cbn; [reflexivity|].
+  destruct (Z.eqb (nk m) k); [intros H; inversion H; subst; destruct n; reflexivity|intros H; now rewrite IH].
+Qed.
+
+Lemma inherit_fold k anchor m l : anchor <> k -> forall g A n,
+  gfind k g = Some n -> gfind anchor g = Some m ->
+  fold_res (inherit_attr k anchor) l (gupdate k (set_attrs A) g)
+  = Ok (gupdate k (set_attrs (inherit_pure (na m) l A)) g).
+Proof.
+  intros Hne. induction l as [|attr l IH]; intros g A n Hk Ha; [reflexivity|].
+  cbn [fold_res]. unfold inherit_attr at 1. unfold node_attrs.
+  rewrite !gfind_gupdate by reflexivity. rewrite Z.eqb_refl, Hk.
+  destruct (Z.eqb anchor k) eqn:E; [apply Z.eqb_eq in E; contradiction|]. rewrite Ha.
+  cbn [option_map bind set_attrs na].
+  unfold inherit_pure. cbn [fold_left]. fold (inherit_pure (na m) l).
+  destruct (ahas attr A) eqn:Eh; cbn [bind].
+  - exact (IH g A n Hk Ha).
+  - unfold set_node_attr. rewrite gupdate_gupdate by reflexivity.
+    rewrite (gupdate_ext k _ (set_attrs (aset attr (getd attr (na m) VNone) A))) by reflexivity.
+    exact (IH g _ n Hk Ha).
+Qed.
+
+Lemma inherit_pure_get an l : forall a attr,
+  aget attr (inherit_pure an l a) =
+  match aget attr a with
+  | Some v => Some v
+  | None => if str_in attr l then Some (getd attr an VNone) else None
+  end.
+Proof.
+  unfold inherit_pure. induction l as [|x l IH]; intros a attr; cbn [fold_left str_in existsb].
+  - destruct (aget attr a); reflexivity.
+  - rewrite IH. unfold ahas.
+    destruct (aget x a) eqn:Ex.
+    + destruct (aget attr a) eqn:Ea; [reflexivity|].
+      destruct (str_eqb_spec attr x) as [->|N]; [congruence|reflexivity].
+    + destruct (str_eqb_spec attr x) as [->|N].
+      * rewrite aget_aset_same, Ex. reflexivity.
+      * rewrite aget_aset_other by exact N. destruct (aget attr a); reflexivity.
+Qed.
+
+(** [h_inherits]: a hydrogen that is not a single-H fragment receives, for every attribute in
+    copy_attrs that it does not carry yet, the value of its FIRST neighbour (None if the neighbour
+    lacks it); attributes it already carries, its bonds, and all other atoms are untouched. *)
+Theorem h_inherits copy_attrs g k n anchor rest m :
+  gfind k g = Some n -> wants_inherit (na n) = true ->
+  neighbors g k = anchor :: rest -> anchor <> k -> gfind anchor g = Some m ->
+  exists g', inherit_step copy_attrs g k = Ok g' /\
+    (forall j, j <> k -> gfind j g' = gfind j g) /\
+    exists n', gfind k g' = Some n' /\ nadj n' = nadj n /\
+      forall attr, aget attr (na n') =
+        match aget attr (na n) with
+        | Some v => Some v
+        | None => if str_in attr copy_attrs then Some (getd attr (na m) VNone) else None
+        end.
+Proof.
+  intros Hk Hw Hn Hne Ha. unfold inherit_step, node_attrs. rewrite Hk. cbn [bind]. rewrite Hw, Hn.
+  pose proof (inherit_fold k anchor m copy_attrs Hne g (na n) n Hk Ha) as HF.
+  rewrite (gupdate_self k g n Hk) in HF. rewrite HF.
+  eexists. split; [reflexivity|]. split.
+  - intros j Hj. rewrite gfind_gupdate by reflexivity. apply Z.eqb_neq in Hj. rewrite Hj. reflexivity.
+  - rewrite gfind_gupdate by reflexivity. rewrite Z.eqb_refl, Hk. cbn [option_map].
+    eexists. split; [reflexivity|]. split; [reflexivity|]. intros attr. cbn [na set_attrs]. apply inherit_pure_get.
+Qed.
+
+(** non-vacuity, and the two exceptions: an explicit hydrogen keeps what it has; a single-H fragment is skipped *)
+Example h_inherits_nonvacuous :
+  let c := {| nk := 0; na := [(S "element", VStr (S "C")); (S "fragid", VList [VInt 3]); (S "fragname", VStr (S "A"))];
+              nadj := [(1, [(S "order", VInt 1)]); (2, [(S "order", VInt 1)]); (3, [(S "order", VInt 1)])] |} in
+  let h a := {| nk := fst a; na := (S "element", VStr (S "H")) :: snd a; nadj := [(0, [(S "order", VInt 1)])] |} in
+  let g := [c; h (1, []); h (2, [(S "fragname", VStr (S "own"))]); h (3, [(S "single_h_frag", VBool true)])] in
+  match inherit_all rebuild_copy_attrs_default g with
+  | Ok g' => node_get g' 1 (S "fragid") = Some (VList [VInt 3]) /\ node_get g' 1 (S "fragname") = Some (VStr (S "A"))
+             /\ node_get g' 1 (S "weight") = Some VNone
+             /\ node_get g' 2 (S "fragname") = Some (VStr (S "own")) /\ node_get g' 2 (S "fragid") = Some (VList [VInt 3])
+             /\ node_get g' 3 (S "fragid") = None
+  | Err _ => False
+  end.
+Proof. vm_compute. repeat split; reflexivity. Qed.
+
+(** ------------------------------------------------------------ attaching hydrogens *)
+Lemma gfind_app i g r : gfind i (g ++ [r]) =
+  match gfind i g with Some n => Some n | None => if Z.eqb (nk r) i then Some r else None end.
+Proof.
+  induction g as [|m g IH]; cbn; [reflexivity|]. destruct (Z.eqb (nk m) i); [reflexivity|exact IH].
+Qed.
+Lemma existsb_eqb_In i l : existsb (Z.eqb i) l = true <-> In i l.
+Proof.
+  rewrite existsb_exists. split; [intros (x & Hin & E); apply Z.eqb_eq in E; now subst|].
+  intros H. exists i. split; [assumption|apply Z.eqb_refl].
+Qed.
+
+Lemma add_nodes_find A : forall idxs g, NoDup idxs -> (forall j, In j idxs -> gfind j g = None) ->
+  forall i, gfind i (fold_left (fun acc j => add_node acc j A) idxs g)
+            = if existsb (Z.eqb i) idxs then Some {| nk := i; na := A; nadj := [] |} else gfind i g.
+Proof.
+  induction idxs as [|j r IH]; intros g Hnd Hfresh i; [reflexivity|].
+  cbn [fold_left existsb]. inversion Hnd as [|? ? Hnotin Hnd']; subst.
+  assert (Hj : gfind j g = None) by (apply Hfresh; now left).
+  unfold add_node at 2. unfold has_node. rewrite Hj.
+  rewrite IH; [|assumption|].
+  - rewrite gfind_app. cbn [nk].
+    destruct (Z.eqb i j) eqn:Eij; cbn [orb].
+    + apply Z.eqb_eq in Eij. subst i.
+      destruct (existsb (Z.eqb j) r) eqn:Er; [apply existsb_eqb_In in Er; contradiction|].
+      rewrite Hj, Z.eqb_refl. reflexivity.
+    + destruct (existsb (Z.eqb i) r); [reflexivity|].
+      destruct (gfind i g); [reflexivity|]. rewrite Z.eqb_sym, Eij. reflexivity.
+  - intros j' Hin. rewrite gfind_app. rewrite (Hfresh j') by now right. cbn [nk].
+    destruct (Z.eqb j j') eqn:E; [apply Z.eqb_eq in E; subst; contradiction|reflexivity].
+Qed.
+
+Lemma adj_set_fresh j d l : adj_get j l = None -> adj_set j d l = l ++ [(j, d)].
+Proof.
+  induction l as [|[w b] l IH]; cbn; [reflexivity|].
+  destruct (Z.eqb w j); [discriminate|]. intros H. now rewrite IH.
+Qed.
+Lemma adj_get_app_other j j' d l : j' <> j -> adj_get j' (l ++ [(j, d)]) = adj_get j' l.
+Proof.
+  intros N. induction l as [|[w b] l IH]; cbn.
+  - destruct (Z.eqb j j') eqn:E; [apply Z.eqb_eq in E; congruence|reflexivity].
+  - destruct (Z.eqb w j'); [reflexivity|exact IH].
+Qed.
+
+Lemma add_edge_fresh g k j ak adjk A : k <> j ->
+  gfind k g = Some {| nk := k; na := ak; nadj := adjk |} ->
+  gfind j g = Some {| nk := j; na := A; nadj := [] |} -> adj_get j adjk = None ->
+  let g' := add_edge g k j h_edge_attrs in
+  gfind k g' = Some {| nk := k; na := ak; nadj := adjk ++ [(j, h_edge_attrs)] |} /\
+  gfind j g' = Some {| nk := j; na := A; nadj := [(k, h_edge_attrs)] |} /\
+  (forall i, i <> k -> i <> j -> gfind i g' = gfind i g).
+Proof.
+  intros Hkj Hk Hj Hadj. cbn zeta. unfold add_edge, has_node, edge_attrs. rewrite Hk, Hj, Hk. cbn [nadj].
+  rewrite Hadj. change (aupdate [] h_edge_attrs) with h_edge_attrs.
+  assert (Ejk : Z.eqb j k = false) by (apply Z.eqb_neq; congruence).
+  assert (Ekj : Z.eqb k j = false) by (apply Z.eqb_neq; congruence).
+  repeat split.
+  - rewrite !gfind_gupdate by reflexivity. rewrite Ekj, Z.eqb_refl, Hk. cbn [option_map nk na nadj].
+    rewrite adj_set_fresh by assumption. reflexivity.
+  - rewrite !gfind_gupdate by reflexivity. rewrite Z.eqb_refl, Ejk, Hj. reflexivity.
+  - intros i Hik Hij. rewrite !gfind_gupdate by reflexivity.
+    apply Z.eqb_neq in Hik, Hij. rewrite Hik, Hij. reflexivity.
+Qed.
+
+Lemma add_edges_find k ak A : forall idxs g adjk, NoDup idxs -> ~ In k idxs ->
+  gfind k g = Some {| nk := k; na := ak; nadj := adjk |} ->
+  (forall j, In j idxs -> gfind j g = Some {| nk := j; na := A; nadj := [] |}) ->
+  (forall j, In j idxs -> adj_get j adjk = None) ->
+  let g' := fold_left (fun acc j => add_edge acc k j h_edge_attrs) idxs g in
+  gfind k g' = Some {| nk := k; na := ak; nadj := adjk ++ map (fun j => (j, h_edge_attrs)) idxs |} /\
+  (forall j, In j idxs -> gfind j g' = Some {| nk := j; na := A; nadj := [(k, h_edge_attrs)] |}) /\
+  (forall i, i <> k -> ~ In i idxs -> gfind i g' = gfind i g).
+Proof.
+  induction idxs as [|j r IH]; intros g adjk Hnd Hk_notin Hk Hjs Hadj; cbn zeta.
+  - cbn. rewrite app_nil_r. repeat split; [assumption|contradiction].
+  - cbn [fold_left map]. inversion Hnd as [|? ? Hnotin Hnd']; subst.
+    assert (Hkj : k <> j) by (intro E; apply Hk_notin; now left).
+    destruct (add_edge_fresh g k j ak adjk A Hkj Hk (Hjs j (or_introl eq_refl)) (Hadj j (or_introl eq_refl)))
+      as (Hk1 & Hj1 & Ho1).
+    destruct (IH (add_edge g k j h_edge_attrs) (adjk ++ [(j, h_edge_attrs)]) Hnd') as (Hk2 & Hj2 & Ho2).
+    + intro H. apply Hk_notin. now right.
+    + exact Hk1.
+    + intros j' Hin. rewrite Ho1; [apply Hjs; now right| |].
+      * intro E. apply Hk_notin. subst. now right.
+      * intro E. subst. contradiction.
+    + intros j' Hin. rewrite adj_get_app_other; [apply Hadj; now right|]. intro E. subst. contradiction.
+    + repeat split.
+      * rewrite Hk2. rewrite <- app_assoc. reflexivity.
+      * intros j' [->|Hin]; [|apply Hj2; assumption].
+        rewrite Ho2; [exact Hj1|congruence|assumption].
+      * intros i Hik Hnot. rewrite Ho2; [apply Ho1; [assumption|]|assumption|].
+        -- intro E. apply Hnot. now left.
+        -- intro H. apply Hnot. now right.
+Qed.
+
+(** [add_h_degree_one]: attaching the hydrogens with fresh keys [idxs] to atom [k] gives every new
+    hydrogen exactly ONE edge, of order 1, to its anchor [k] and the attributes of parse_atom('[H]');
+    the anchor keeps its attributes and its old adjacency, extended by the new hydrogens in order;
+    every other atom, with all its edges, is untouched. *)
+Theorem add_h_degree_one g k n idxs :
+  gfind k g = Some n -> NoDup idxs -> (forall j, In j idxs -> gfind j g = None) ->
+  (forall j, In j idxs -> adj_get j (nadj n) = None) ->
+  let g' := attach_h g k idxs in
+  (forall j, In j idxs ->
+     gfind j g' = Some {| nk := j; na := h_atom_defaults; nadj := [(k, h_edge_attrs)] |}) /\
+  gfind k g' = Some {| nk := k; na := na n; nadj := nadj n ++ map (fun j => (j, h_edge_attrs)) idxs |} /\
+  (forall i, i <> k -> ~ In i idxs -> gfind i g' = gfind i g).
+Proof.
+  intros Hk Hnd Hfresh Hadj. cbn zeta. unfold attach_h.
+  assert (Hnk : ~ In k idxs) by (intro H; rewrite (Hfresh k H) in Hk; discriminate).
+  pose proof (add_nodes_find h_atom_defaults idxs g Hnd Hfresh) as HN.
+  set (g1 := fold_left (fun acc j => add_node acc j h_atom_defaults) idxs g) in *.
+  assert (Hk1 : gfind k g1 = Some {| nk := k; na := na n; nadj := nadj n |}).
+  { rewrite HN. destruct (existsb (Z.eqb k) idxs) eqn:E; [apply existsb_eqb_In in E; contradiction|].
+    rewrite Hk. pose proof (gfind_key _ _ _ Hk). destruct n; cbn in *; subst; reflexivity. }
+  assert (Hj1 : forall j, In j idxs -> gfind j g1 = Some {| nk := j; na := h_atom_defaults; nadj := [] |}).
+  { intros j Hin. rewrite HN. apply existsb_eqb_In in Hin. rewrite Hin. reflexivity. }
+  destruct (add_edges_find k (na n) h_atom_defaults idxs g1 (nadj n) Hnd Hnk Hk1 Hj1 Hadj) as (Hk2 & Hj2 & Ho2).
+  split; [exact Hj2|]. split; [exact Hk2|].
+  intros i Hik Hnot. rewrite Ho2 by assumption. rewrite HN.
+  destruct (existsb (Z.eqb i) idxs) eqn:E; [apply existsb_eqb_In in E; contradiction|reflexivity].
+Qed.
+
+(** the keys add_explicit_hydrogens uses are fresh: above every existing key, pairwise distinct *)
+Lemma fold_max_ge l : forall a x, (x = a \/ In x l) -> x <= fold_left Z.max l a.
+Proof.
+  induction l as [|y l IH]; intros a x H; cbn.
+  - destruct H as [->|[]]. lia.
+  - destruct H as [->|[->|H]].
+    + transitivity (Z.max a y); [lia|apply IH; now left].
+    + transitivity (Z.max a x); [lia|apply IH; now left].
+    + apply IH. now right.
+Qed.
+Lemma max_key_ge g x : In x (node_keys g) -> x <= max_key g.
+Proof.
+  unfold max_key. destruct (node_keys g) as [|a l]; [contradiction|].
+  intros [->|H]; apply fold_max_ge; [now left|now right].
+Qed.
+Lemma fresh_keys_fresh g h j : In j (fresh_keys g h) -> gfind j g = None.
+Proof.
+  unfold fresh_keys. rewrite in_map_iff. intros (i & <- & _).
+  apply gfind_none_keys. intro H. apply max_key_ge in H. lia.
+Qed.
+From Coq Require FinFun.
+Lemma fresh_keys_nodup g h : NoDup (fresh_keys g h).
+Proof.
+  unfold fresh_keys. apply FinFun.Injective_map_NoDup; [|apply seq_NoDup].
+  intros a b H. lia.
+Qed.
+
+Example add_h_degree_one_nonvacuous :
+  let g := [{| nk := 0; na := [(S "element", VStr (S "C")); (S "hcount", VInt 2)]; nadj := [(5, [(S "order", VInt 2)])] |};
+            {| nk := 5; na := [(S "element", VStr (S "O")); (S "hcount", VInt 0)]; nadj := [(0, [(S "order", VInt 2)])] |}] in
+  fresh_keys g 2 = [6; 7] /\
+  match add_explicit_hydrogens g with
+  | Ok g' => neighbors g' 0 = [5; 6; 7] /\ neighbors g' 6 = [0] /\ neighbors g' 7 = [0] /\ neighbors g' 5 = [0]
+             /\ node_get g' 0 (S "hcount") = None
+  | Err _ => False
+  end.
+Proof. vm_compute. repeat split; reflexivity. Qed.
